@@ -57,6 +57,9 @@ Times(t, n) == IF n = 0 THEN <<>> ELSE t \o Times(t, n - 1)
 
 \* a yank inserts the kill-ring head at point, n >= 1 times for a numeric argument n
 YankContract(pre, post, maxn) ==
-  \/ (pre.kill = <<>> /\ post.line = pre.line)
-  \/ \E n \in 1..maxn : post.line = InsertAt(pre.line, pre.cur, Times(pre.kill, n))
+  IF pre.kill = <<>> THEN post.line = pre.line
+  ELSE LET d == Len(post.line) - Len(pre.line)
+           n == d \div Len(pre.kill)
+       IN /\ d > 0 /\ d % Len(pre.kill) = 0 /\ n <= maxn
+          /\ post.line = InsertAt(pre.line, pre.cur, Times(pre.kill, n))
 =============================================================================
